@@ -306,6 +306,8 @@ def search(ctx):
                 x = R.make_inputs(e, 2, gen, torch.float64, inverse)
                 if e.spline.get('B'):
                     x = torch.where((x.abs() - e.spline['B']).abs() < 1e-3, x * 0.37, x)
+                if e.kind == 'nonlin' and e.extra.get('cls') != 'LeakyReLU' and (e.dom_inv if inverse else e.dom_fwd) is None:
+                    x.view(-1)[0] = 0.0     # exactly zero: a smooth point of these maps, and the classic NaN-gradient trap of where()/masked code
                 c = R.make_context(e, 2, gen, torch.float64)
                 f = t.inverse if inverse else t.forward
                 call = (lambda a: f(a, c)) if c is not None else (lambda a: f(a))
